@@ -278,6 +278,7 @@ def execute(scn, guide=None, keep=False, observer=None):
                 continue
             if op[0] == "connect":
                 s0 = k.ev("connect-call")
+                hist.append(("connect-call", None, s0, None))
                 try:
                     if scn.get("ctx"):
                         w.__enter__()              # `with writer:` form
@@ -294,6 +295,7 @@ def execute(scn, guide=None, keep=False, observer=None):
             elif op[0] == "connect_timeout":
                 # the first connection attempt times out (device still booting); the caller retries
                 w.set_timeout(op[1])
+                hist.append(("connect-call", None, k.ev("connect-attempt"), None))   # a session of its own
                 try:
                     w.connect()
                     k.ev("connect-timeout-attempt", "connected")
@@ -308,6 +310,7 @@ def execute(scn, guide=None, keep=False, observer=None):
                 except BaseException as e:
                     k.ev("connect-timeout-attempt", type(e).__name__)
                     k.probe("c16.connect_timed_out_then_retried")
+                hist.append(("disc-call", None, k.ev("connect-attempt-over"), None))
                 w.set_timeout(30.0)
             elif op[0] == "signal_other":
                 # another writer object of the same process handled SIGINT earlier
